@@ -59,12 +59,14 @@ theorem mem_cseTable {σ : Var → Nat} {evs : List Ev} {x : String} {v : Nat} (
 
 /-! ### unpacking the side conditions -/
 
-theorem usedOK_spec {k : Nat} {e : VExpr} {len : Nat} {r : Bool} (h : usedOK (.used k e len r) = true) :
+theorem usedOK_spec {k : Nat} {e : VExpr} {len : Nat} {r : Bool} (h : usedOK (.used k e len r) = true)
+    (hfilt : FiltOK (.used k e len r)) :
     0 < len ∧ (∃ m ub, valueRange e = some (m, ub) ∧ (valueOf e = none → ub = true)) ∧
       hasRepeatedAxis e = false ∧ (∀ p ∈ freeAxes e, 1 ≤ p.2) ∧ (r = true → ndim e = 1) := by
   simp only [usedOK, Bool.and_eq_true, decide_eq_true_eq, Bool.or_eq_true, Bool.not_eq_true', List.all_eq_true,
     beq_iff_eq] at h
-  obtain ⟨⟨⟨⟨⟨h1, h2⟩, h3⟩, h4⟩, h5⟩, h6⟩ := h
+  obtain ⟨⟨h4, h5⟩, h6⟩ := h
+  obtain ⟨h1, h2, h3⟩ := hfilt
   refine ⟨h1, ?_, h3, h4, ?_⟩
   · cases hr : valueRange e with
     | none => simp [hr] at h2
@@ -79,18 +81,19 @@ theorem usedOK_spec {k : Nat} {e : VExpr} {len : Nat} {r : Bool} (h : usedOK (.u
     | inr h => exact h
 
 structure TraceFacts (evs : List Ev) : Prop where
+  filt : ∀ ev ∈ evs, FiltOK ev
   used : ∀ ev ∈ evs, usedOK ev = true
   pair : ∀ a ∈ evs, ∀ b ∈ evs, pairOK a b = true
 
-theorem traceOK_facts {evs : List Ev} (h : traceOK evs = true) : TraceFacts evs := by
+theorem traceOK_facts {evs : List Ev} (h : traceOK evs = true) (hfilt : ∀ ev ∈ evs, FiltOK ev) : TraceFacts evs := by
   simp only [traceOK, Bool.and_eq_true, List.all_eq_true] at h
-  exact ⟨h.1, h.2⟩
+  exact ⟨hfilt, h.1, h.2⟩
 
 theorem evPos_of_facts {evs : List Ev} (hf : TraceFacts evs) : ∀ ev ∈ evs, EvPos ev := by
   intro ev hev
   cases ev with
   | surv n m => trivial
-  | used k e len r => exact (usedOK_spec (hf.used _ hev)).1
+  | used k e len r => exact (usedOK_spec (hf.used _ hev) (hf.filt _ hev)).1
 
 /-! ### forward: a solution before CSE, extended, is a solution after CSE -/
 
@@ -109,7 +112,7 @@ theorem good_forward {evs : List Ev} (hf : TraceFacts evs) (σ : Var → Nat) :
       rw [hx]; exact fun h => this.1 h.symm
     simp [extend, this]
   | used k e len r =>
-    obtain ⟨hlen, _, _, _, hroot⟩ := usedOK_spec (hf.used _ hev)
+    obtain ⟨hlen, _, _, _, hroot⟩ := usedOK_spec (hf.used _ hev) (hf.filt _ hev)
     refine ⟨hlen, fun hv => ?_, hroot⟩
     have hmem : (cseName k, evalV σ e) ∈ cseTable σ evs := by
       simp only [cseTable, List.mem_filterMap]
@@ -165,7 +168,7 @@ theorem build_before {evs : List Ev} (hf : TraceFacts evs) (σ' : Var → Nat)
       | tail _ h => exact hinv k e len r h
     | used k e len r =>
       have hev : Ev.used k e len r ∈ evs := hL _ List.mem_cons_self
-      obtain ⟨_, ⟨m, ub, hrange, hub⟩, hnorep, hminpos, _⟩ := usedOK_spec (hf.used _ hev)
+      obtain ⟨_, ⟨m, ub, hrange, hub⟩, hnorep, hminpos, _⟩ := usedOK_spec (hf.used _ hev) (hf.filt _ hev)
       cases hv : valueOf e with
       | some v =>
         -- a part with a known value has no unknown axes
@@ -228,7 +231,7 @@ theorem good_backward {evs : List Ev} (hf : TraceFacts evs) (σ σ' : Var → Na
     simp only [pairOK, Bool.and_eq_true, Bool.not_eq_true', List.contains_eq_mem, decide_eq_false_iff_not] at this
     exact this.2 hx
   | used k e len r =>
-    obtain ⟨hlen, _, _, _, hroot⟩ := usedOK_spec (hf.used _ hev)
+    obtain ⟨hlen, _, _, _, hroot⟩ := usedOK_spec (hf.used _ hev) (hf.filt _ hev)
     exact ⟨hlen, fun hv => (hinv k e len r hev hv).symm, hroot⟩
 
 end Einx.Solve.CseT
